@@ -251,7 +251,10 @@ theorem stepTarget_frame (force three : Bool) (orig : List Obj) (t : Obj) (r : U
     (hk : k ≠ t.key) : (stepTarget force three orig t r).store.get? k = r.store.get? k := by
   unfold stepTarget
   split
-  · exact Store.get?_put_ne _ _ hk
+  · dsimp only
+    split
+    · rfl
+    · exact Store.get?_put_ne _ _ hk
   · rename_i live hl
     split
     · rfl
@@ -266,7 +269,10 @@ theorem stepTarget_err (force three : Bool) (orig : List Obj) (t : Obj) (r : UpR
     (h : (stepTarget force three orig t r).err = false) : r.err = false := by
   unfold stepTarget at h
   split at h
-  · exact h
+  · dsimp only at h
+    split at h
+    · simp at h
+    · exact h
   · split at h
     · simp at h
     · exact h
@@ -277,7 +283,14 @@ theorem stepTarget_present (force three : Bool) (orig : List Obj) (t : Obj) (r :
       (fullMerge force three t = true → o.covers t) := by
   unfold stepTarget at h ⊢
   split
-  · exact ⟨t, Store.get?_put_self _ _, fun _ => Obj.covers_refl t⟩
+  · rename_i hg
+    simp only [hg] at h
+    dsimp only at h ⊢
+    split
+    · rename_i hr
+      have hr' : t.key ∈ r.rej := by simpa using hr
+      simp [hr'] at h
+    · exact ⟨t, Store.get?_put_self _ _, fun _ => Obj.covers_refl t⟩
   · rename_i live hl
     split
     · rename_i hn
@@ -306,7 +319,7 @@ theorem stepTarget_log (force three : Bool) (orig : List Obj) (t : Obj) (r : UpR
       ∀ e ∈ evs, e.key = t.key ∧ e.isDelete = false := by
   unfold stepTarget
   split
-  · exact ⟨[.get t.key, .create t.key], by simp, by simp [Ev.key, Ev.isDelete]⟩
+  · exact ⟨[.get t.key, .create t.key], by dsimp only; split <;> simp, by simp [Ev.key, Ev.isDelete]⟩
   · split
     · exact ⟨[.get t.key], by simp, by simp [Ev.key, Ev.isDelete]⟩
     · simp only
@@ -656,5 +669,8 @@ theorem preflight_adopted (to : Bool) (rel ns : String) (rs : List Obj) (s : Sto
     (h : (preflight to rel ns rs s).1 = some b) : b = rs.filter (fun r => (s.get? r.key).isSome) := by
   have := pf_fold_adopted to rel ns s rs [] [] b h
   simpa using this
+
+theorem filter_norej (l : List Obj) : l.filter (fun r => !([] : List String).contains r.key) = l := by
+  simp
 
 end Helm.Cluster
